@@ -1191,6 +1191,20 @@ func capRun(e *Env) {
 		return "me"
 	}
 	e.LinkPlan = func(l *simnet.Link) { l.ChunkMode = g.Intn(4) }
+	// how the server spaces its capability lists: some pad them (a blank after
+	// the last name, two blanks between names); the names are the same
+	padStyle := g.W(6, 2, 1, 1)
+	joinCaps := func(xs []string) string {
+		switch padStyle {
+		case 1:
+			return strings.Join(xs, " ") + " "
+		case 2:
+			return strings.Join(xs, "  ")
+		case 3:
+			return " " + strings.Join(xs, "  ") + "  "
+		}
+		return strings.Join(xs, " ")
+	}
 	done := false
 	enabled := map[string]bool{}
 	saslStarted, saslAsked, saslEnded := false, false, false
@@ -1228,7 +1242,7 @@ func capRun(e *Env) {
 			}
 			// unrelated traffic interleaved
 			l.SendLine(":irc.sim NOTICE * :*** Looking up your hostname")
-			l.SendLine(":irc.sim CAP "+capID()+" LS :" + strings.Join(advertised, " "))
+			l.SendLine(":irc.sim CAP "+capID()+" LS :" + joinCaps(advertised))
 			var reqs [][]string
 			if len(inter) == 0 {
 				ln, ok := nextLine()
@@ -1285,7 +1299,7 @@ func capRun(e *Env) {
 						}
 					}
 					if reply == 1 {
-						l.SendLine(":irc.sim CAP "+capID()+" NAK :" + strings.Join(caps, " "))
+						l.SendLine(":irc.sim CAP "+capID()+" NAK :" + joinCaps(caps))
 						ln, ok := nextLine()
 						e.Check()
 						if !ok || ln != "CAP END" {
@@ -1319,7 +1333,7 @@ func capRun(e *Env) {
 							return
 						}
 					}
-					l.SendLine(":irc.sim CAP "+capID()+" ACK :" + strings.Join(caps, " "))
+					l.SendLine(":irc.sim CAP "+capID()+" ACK :" + joinCaps(caps))
 					for _, cp := range caps {
 						enabled[cp] = true
 					}
@@ -1626,6 +1640,10 @@ func logRun(e *Env) {
 		}
 	}
 	sawPass := false
+	eagerWelcome := g.Pct(25)
+	if eagerWelcome {
+		e.S.Count("probe.welcome-sent-before-the-registration-was-read")
+	}
 	e.OnDial = func(l *simnet.Link) {
 		if fault == 6 && l.ID == 1 {
 			// nothing that speaks TLS behind the socket
@@ -1633,6 +1651,12 @@ func logRun(e *Env) {
 			return
 		}
 		e.S.Spawn(fmt.Sprintf("server%d", l.ID), func() {
+			if eagerWelcome {
+				// a server (a bouncer) that greets and welcomes before it has read
+				// anything: the welcome is handled while PASS is still being written
+				l.SendLine(":irc.sim NOTICE * :*** Looking up your hostname")
+				l.SendLine(":irc.sim 001 me :Welcome me!ident@host.sim")
+			}
 			if stall > 0 {
 				simrt.Sleep(stall)
 			}
